@@ -263,7 +263,7 @@ def gen_compiled(rng):
 
 
 def judge(ctx, hist, c, nt):
-    d = H.compare_history(ctx['real'], hist, budgetA=20000)
+    d = H.compare_history(ctx['real'], hist, budgetA=20000, atom_mode=_atom_mode(hist, c))
     r = {'c': c, 'nt': False, 'key': H.normalise(hist)}
     if d['status'] == 'discard':
         r['discard'] = d['reason']
@@ -355,3 +355,13 @@ def fix_history(hist):
             s[1] = [tuple(k) for k in s[1]]
         out.append(tuple(s))
     return out
+
+
+def _atom_mode(hist, c):
+    """where the host program's atom objects come from (same terms in every mode): made at the time of use, made once
+    and held (also across clear()), or made by another engine"""
+    import hashlib
+    k = int(hashlib.md5(repr(hist).encode('utf8', 'backslashreplace')).hexdigest(), 16) % 10
+    mode = 'fresh' if k < 5 else ('held' if k < 8 else 'other')
+    c['atoms_' + mode] = 1
+    return mode
